@@ -66,9 +66,11 @@ def seeded():
         now = verdict(cr)
         kinds = ", ".join(sorted({str(r.get("kind")) for r in cr.get("replays", [])}))[:120]
         what = (m.get("what_breaks", "") + " — needs: " + m.get("needs_to_manifest", "")).replace("|", "\\|").replace("\n", " ")
-        if len(what) > 300:
-            what = what[:297] + "…"
-        note = m.get("strengthening", "")
+        if len(what) > 230:
+            what = what[:227] + "…"
+        note = m.get("strengthening", "").replace("|", "\\|").replace("\n", " ")
+        if len(note) > 330:
+            note = note[:327] + "… (full text: seeded/" + name + "/meta.json)"
         out.append(f"| {name} | {what} | {first} | {now} | {kinds}{(' — ' + note) if note else ''} |")
     return "\n".join(out) + "\n"
 
